@@ -22,14 +22,17 @@ def main():
     if "--tier" in sys.argv:
         tier = sys.argv[sys.argv.index("--tier") + 1]
     src = "/tmp/seed_%s/SEED/%s" % (pid, x)
-    dst = os.path.join(ROOT, "seeded", "%s-%s" % (pid, x))
+    name = "%s-%s" % (pid, x)
+    if "--name" in sys.argv:
+        name = sys.argv[sys.argv.index("--name") + 1]
+    dst = os.path.join(ROOT, "seeded", name)
     if os.path.isdir(src):
         os.makedirs(dst, exist_ok=True)
         for f in os.listdir(src):
             if os.path.isfile(os.path.join(src, f)):
                 shutil.copy(os.path.join(src, f), os.path.join(dst, f))
     patch = os.path.join(dst, "patch.diff")
-    meta = {"property": pid, "variant": x, "source": "independent sub-agent given only the property text and a scratch worktree", "ran": []}
+    meta = {"property": pid, "variant": name, "source": "independent sub-agent given only the property text and a scratch worktree", "ran": []}
     touched = sorted(set(re.findall(r"^\+\+\+ b/(\S+)", open(patch).read(), re.M)))
     pkgs = sorted({"./" + os.path.dirname(f) + "/..." for f in touched})
     meta["touched_files"] = touched
@@ -109,7 +112,7 @@ def finish(dst, meta):
         if k in old:
             meta[k] = old[k]
     json.dump(meta, open(mp, "w"), indent=1)
-    print("%s-%s: builds=%s own_tests=%s demo(with)=%s demo(without)=%s check=%s (%ss)\n   %s" % (
+    print("%s (%s): builds=%s own_tests=%s demo(with)=%s demo(without)=%s check=%s (%ss)\n   %s" % (
         meta["property"], meta["variant"], meta.get("builds"), str(meta.get("existing_tests_with_change"))[:20], meta.get("demo_with_change"), meta.get("demo_without_change"),
         meta.get("check_result"), meta.get("check_wall_s"), str(meta.get("check_detail", ""))[:300].replace("\n", "\n   ")))
 
